@@ -26,7 +26,93 @@ func wrapRun(prop string, extra func(c *core.Ctx)) {
 	}
 }
 
+// instanceIsolation: what a reader delivers is a function of its own input only if the code on its path keeps no
+// mutable state outside the instance. In the run-set functions of the given packages: no store rooted at a
+// package-level variable, every package-level variable read has init-only writers, and aggregates held in
+// package-level variables (maps, slices, pointers) are neither mutated nor aliased into instance state (= C14 R14b
+// restricted to the packages the property is anchored in). Without this two instances alive at the same time —
+// interleaved on one goroutine or concurrent — see each other's data.
+func instanceIsolation(c *core.Ctx, rule string, floor int, pkgs ...string) {
+	e := entries(c, rule)
+	if e == nil {
+		return
+	}
+	var fns []*ssa.Function
+	for _, f := range repoFuncsIn(e.run) {
+		p := core.FuncPkg(f)
+		if p == nil {
+			continue
+		}
+		rel := core.Rel(p.Path())
+		ok := len(pkgs) == 0
+		for _, want := range pkgs {
+			if rel == want || strings.HasPrefix(rel, want+"/") {
+				ok = true
+			}
+		}
+		if ok {
+			fns = append(fns, f)
+		}
+	}
+	nW := 0
+	for _, f := range fns {
+		for _, w := range core.Writes(f) {
+			nW++
+			if w.Global != nil && core.InRepo(w.Global.Pkg.Pkg) {
+				c.Bad(rule, core.FuncKey(f)+" writes global "+w.Global.Name(), w.Pos, "function on the reader's path stores to memory rooted at package-level variable "+w.Global.Name()+": state shared by every instance in the process")
+			}
+		}
+	}
+	c.OK(rule, "store inventory", 0, fmt.Sprintf("%d stores in %d run-set functions of %v inspected: none rooted at a package-level variable unless reported", nW, len(fns), pkgs))
+	// the one sanctioned kind of shared state, sync.Pool: an object handed back must not stay referenced
+	poolTypestateMatch(c, rule, func(p *types.Package) bool {
+		rel := core.Rel(p.Path())
+		for _, want := range pkgs {
+			if rel == want || strings.HasPrefix(rel, want+"/") {
+				return true
+			}
+		}
+		return len(pkgs) == 0
+	})
+	c14GlobalsN(c, e, fns, rule, floor)
+}
+
 func init() {
+	wrapRun("C04", func(c *core.Ctx) {
+		if c.CountRule("R04j") == 0 {
+			instanceIsolation(c, "R04j", 3, "idr", "extensions/omniv21/fileformat/xml", "extensions/omniv21/fileformat/json")
+		}
+	})
+	wrapRun("C05", func(c *core.Ctx) {
+		if c.CountRule("R05h") == 0 {
+			staleElemPointers(c, "R05h", "extensions/omniv21/fileformat/flatfile", "extensions/omniv21/fileformat/edi")
+			c.Floor("R05h", 8, "stack-top pointers of the two matchers")
+		}
+		if c.CountRule("R05g") == 0 {
+			instanceIsolation(c, "R05g", 3, "extensions/omniv21/fileformat/flatfile", "extensions/omniv21/fileformat/edi")
+		}
+	})
+	wrapRun("C06", func(c *core.Ctx) {
+		// R06j: a line that still aliases bufio's buffer when the buffer is refilled is overwritten with later input (the
+		// bug behind upstream issue 213) = C09 R09a, the borrowed-buffer discipline
+		if c.CountRule("R06j") == 0 {
+			importRules(c, "C09", map[string]string{"R09a": "R06j"})
+			c.Floor("R06j", 3, "borrow stores of the csv2/fixedlength2 readers")
+		}
+		if c.CountRule("R06i") == 0 {
+			instanceIsolation(c, "R06i", 1, "extensions/omniv21/fileformat/flatfile", "extensions/omniv21/fileformat/csv", "extensions/omniv21/fileformat/fixedlength")
+		}
+	})
+	wrapRun("C07", func(c *core.Ctx) {
+		if c.CountRule("R07g") == 0 {
+			instanceIsolation(c, "R07g", 3, "extensions/omniv21/fileformat/edi")
+		}
+	})
+	wrapRun("C08", func(c *core.Ctx) {
+		if c.CountRule("R08g") == 0 {
+			instanceIsolation(c, "R08g", 3, "idr", "extensions/omniv21/customfuncs")
+		}
+	})
 	wrapRun("C11", func(c *core.Ctx) {
 		if c.CountRule("R11e") == 0 {
 			c11QueryWrappers(c)
@@ -44,6 +130,22 @@ func init() {
 		}
 	})
 	wrapRun("C03", func(c *core.Ctx) {
+		if c.CountRule("K12") == 0 {
+			// an unsynchronised package-level map/slice mutated on the Read path makes two transforms running side by side
+			// die with the runtime's unrecoverable "concurrent map writes"
+			instanceIsolation(c, "K12", 10)
+		}
+		if c.CountRule("K14") == 0 {
+			// a write through a stale stack-entry pointer is lost: the real entry keeps a nil node, the next AddChild panics
+			staleElemPointers(c, "K14")
+			c.Floor("K14", 8, "element pointers into grown slice-of-struct fields")
+		}
+		if c.CountRule("K13") == 0 {
+			// the one subtractive slice bound on the tokenizer path, token[:len(token)-len(delim)], is in range only while the
+			// scanner returns delimiter-terminated tokens (= C07 R07a, which checks the flags against the strip)
+			importRules(c, "C07", map[string]string{"R07a": "K13"})
+			c.Floor("K13", 5, "segment delimiter strip and its scanner configuration")
+		}
 		if c.CountRule("K10") == 0 {
 			c03NoReadRecursion(c)
 			c.Floor("K10", 8, "Read methods of the readers, the ingester and the transform")
@@ -53,6 +155,10 @@ func init() {
 			c.Floor("K11", 10, "loops whose exit condition is carried in registers")
 		}
 	})
+	control(Control{ID: "c05-stale-stack-pointer", Prop: "C05", File: "extensions/omniv21/fileformat/flatfile/hierarchyReader.go",
+		Old: "\tcur = r.shrinkStack()\n\tif cur.curChild < len(cur.recDecl.ChildDecls())-1 {\n\t\tcur.curChild++\n\t\tr.growStack(stackEntry{recDecl: cur.recDecl.ChildDecls()[cur.curChild]})\n",
+		New: "\tcur = r.shrinkStack()\n\tif cur.curChild < len(cur.recDecl.ChildDecls())-1 {\n\t\tr.growStack(stackEntry{recDecl: cur.recDecl.ChildDecls()[cur.curChild+1]})\n\t\tcur.curChild++\n",
+		Rule: "R05h", Substr: "HierarchyReader).recNext", Why: "the parent's child cursor is advanced through a pointer taken before the stack grew"})
 	control(Control{ID: "c13-pooled-buffer-kept", Prop: "C13", File: "extensions/omniv21/fileformat/edi/reader2.go",
 		Old: "func (r *NonValidatingReader) Read() (RawSeg, error) {\n", New: "var scanBufPool sync.Pool\n\nfunc (r *NonValidatingReader) recycleBuf() {\n\tscanBufPool.Put(r.rawSeg.Elems)\n}\n\nfunc (r *NonValidatingReader) Read() (RawSeg, error) {\n",
 		Rule: "R13d", Substr: "recycleBuf", Why: "an object is handed to a pool while the reader keeps referencing it"})
@@ -123,9 +229,18 @@ func init() {
 func poolTypestate(c *core.Ctx, rule string) { poolTypestateIn(c, rule, "") }
 
 func poolTypestateIn(c *core.Ctx, rule, pkgSuffix string) {
+	n := poolTypestateMatch(c, rule, func(p *types.Package) bool {
+		return pkgSuffix == "" || strings.HasSuffix(p.Path(), pkgSuffix)
+	})
+	if n == 0 {
+		c.Unresolved(rule, "sync.Pool.Put sites", "none found in library code")
+	}
+}
+
+func poolTypestateMatch(c *core.Ctx, rule string, match func(p *types.Package) bool) int {
 	n := 0
 	for _, f := range c.RepoFunctions() {
-		if core.IsCLIOrSample(core.FuncPkg(f)) || (pkgSuffix != "" && !strings.HasSuffix(core.FuncPkg(f).Path(), pkgSuffix)) {
+		if core.IsCLIOrSample(core.FuncPkg(f)) || !match(core.FuncPkg(f)) {
 			continue
 		}
 		for _, ci := range core.Calls(f) {
@@ -210,9 +325,7 @@ func poolTypestateIn(c *core.Ctx, rule, pkgSuffix string) {
 			c.Check(!used.IsValid(), rule, key, core.InstrPos(ci), "the pooled value is not used after the Put", "the value is used after it was handed to the pool")
 		}
 	}
-	if n == 0 {
-		c.Unresolved(rule, "sync.Pool.Put sites", "none found in library code")
-	}
+	return n
 }
 
 // ---------------------------------------------------------------- R09c / R09d
